@@ -346,16 +346,20 @@ class NPProxy:
 
 
 @contextlib.contextmanager
-def patched(module, **names):
-    """temporarily replace module-level names (np, Atoms, ...) in the module under test"""
+def patched(target, **names):
+    """temporarily replace names (np, Atoms, ...) in the namespace of the module (or class) under test"""
     missing = object()
-    old = {k: module.__dict__.get(k, missing) for k in names}
-    module.__dict__.update(names)
+    old = {k: target.__dict__.get(k, missing) for k in names}
+    for k, v in names.items():
+        setattr(target, k, v)
     try:
         yield
     finally:
         for k, v in old.items():
             if v is missing:
-                module.__dict__.pop(k, None)
+                try:
+                    delattr(target, k)
+                except AttributeError:
+                    pass
             else:
-                module.__dict__[k] = v
+                setattr(target, k, v)
